@@ -1,18 +1,31 @@
 (* C08 -- URL.String is a canonical form that parses back to the same URL.
-   Proved here, about [url_string] (Model/Url.v, mirroring URL.String):
-   (1) the escaping it applies is invertible for EVERY byte string -- query
-   values (url.QueryEscape) and path segments (url.PathEscape) -- and escaped
-   query values contain none of the characters that delimit a URL's parts, so
-   a value can neither be cut nor merged on the way back; (2) the text is a
-   function of the field selections as a map of sets: reordering the
-   selection entries or the names inside them does not change it.
-   NOT PROVED (correspondence + oracle only): the full fixed point
-   parse(String(u)) = u, which needs url.Parse / ParseQuery themselves; the
-   recorded finding empty-field-list-chopped (a type without any field) is a
-   counterexample pinned by the golden files. *)
+   Proved here, about [url_string] (Model/Url.v, mirroring URL.String),
+   [parse_raw] (Model/UrlParse.v: url.Parse + Query(), modelled and run against
+   the standard library by the correspondence check) and [new_url_from]
+   (NewSimpleURL + NewURL):
+   (1) the escaping is invertible for EVERY byte string and escaped values
+   contain no delimiter;
+   (2) the text depends on the field selections as a map of sets only;
+   (3) C08_string_parses_to_its_parameters: the printed text parses into the
+   fragments' path and exactly one value per printed parameter;
+   (4) C08_sorting_rules_fixed_point: the rule list is a fixed point of the
+   normalisation in NewParams;
+   (5) C08_string_fixed_point_partial: for every URL that parsing returns,
+   parsing its String() succeeds, recovers fragments, type, id, relationship,
+   field selection (as sets), rules, page number/size and filter, and prints
+   the same text again.  PARTIAL: under the naming hygiene [schema_hyg] (every
+   type has a field -- otherwise the recorded finding empty-field-list-chopped
+   --, field names without commas, attribute names not starting with '-' and
+   not "id"; C08_fixed_point_without_hygiene_refuted shows it is needed) and
+   under [fo_agrees] (decoding the printed filter text gives the filter back:
+   json.Marshal / Unmarshal of Filter are oracle inputs of the model; the Go
+   oracle checks this on every generated URL).
+   NOT PROVED: invariance under reordering differently named parameters at
+   the level of the parsed URL (Go's map iteration; correspondence + oracle). *)
 From Coq Require Import Permutation.
 From JV Require Import Model.Base Model.GoTime Gen.TypeGo Model.Schema Model.Value
-  Model.Url Proofs.C08Facts.
+  Model.Url Model.UrlParse Proofs.C08Facts Proofs.C08Parse Proofs.C08Rules Proofs.C08Reparse
+  Proofs.C08Origin Proofs.C08Fixed.
 
 Theorem C08_query_escape_invertible : forall s, unescape true (query_escape s) = Some s.
 Proof. exact query_unescape_escape. Qed.
@@ -41,6 +54,69 @@ Theorem C08_string_canonical : forall u1 u2 lj,
   url_string u1 lj = url_string u2 lj.
 Proof. exact url_string_fields_order. Qed.
 Print Assumptions C08_string_canonical.
+
+Theorem C08_string_parses_to_its_parameters : forall u lj x l,
+  u_fragments u = x :: l ->
+  Forall (fun kv => snd kv <> []) (p_fields (u_params u)) ->
+  NoDup (map fst (dec_params u lj)) ->
+  parse_raw (url_string u lj) = Ok (("/" ++ join "/" (x :: l))%string, map one_value (dec_params u lj)).
+Proof. exact parse_raw_url_string. Qed.
+Print Assumptions C08_string_parses_to_its_parameters.
+
+Theorem C08_sorting_rules_fixed_point : forall t rules,
+  NoDup (attr_names t) ->
+  (forall a, In a (attr_names t) -> strip_minus a = a /\ a <> "id") ->
+  sorting_rules t (sorting_rules t rules) = sorting_rules t rules.
+Proof. exact sorting_rules_fixed_point. Qed.
+Print Assumptions C08_sorting_rules_fixed_point.
+
+Theorem C08_string_fixed_point_partial : forall s path values fo u lj fo',
+  schema_hyg s -> new_url_from s path values fo = Ok u ->
+  fo_agrees (p_filter (u_params u)) fo' ->
+  exists u', new_url_from_raw s (url_string u lj) fo' = Ok u' /\
+             url_string u' lj = url_string u lj /\ url_same u u'.
+Proof. exact string_fixed_point. Qed.
+Print Assumptions C08_string_fixed_point_partial.
+
+(** the hygiene is needed: with an attribute called "-a" the second String()
+    differs from the first *)
+Definition c08_odd_schema : schema := mkSchema [mkType "t" [("-a", mkAttr "-a" 1 false)] []].
+
+Theorem C08_fixed_point_without_hygiene_refuted :
+  exists u u', new_url_from c08_odd_schema "/t" [] FOErr = Ok u /\
+               new_url_from_raw c08_odd_schema (url_string u "") FOErr = Ok u' /\
+               url_string u' "" <> url_string u "".
+Proof.
+  eexists. eexists. split; [vm_compute; reflexivity|]. split; [vm_compute; reflexivity|].
+  vm_compute. discriminate.
+Qed.
+Print Assumptions C08_fixed_point_without_hygiene_refuted.
+
+(** non-vacuity: a schema with the hygiene and a URL with every kind of parameter *)
+Definition c08_schema : schema :=
+  mkSchema [mkType "t" [("a", mkAttr "a" 1 false); ("b", mkAttr "b" 2 false)]
+                       [("r", mkRel "t" "r" true "u" "" false)];
+            mkType "u" [("title", mkAttr "title" 1 false)] []].
+
+Example c08_schema_hyg : schema_hyg c08_schema.
+Proof.
+  constructor.
+  - reflexivity.
+  - intros t [<-|[<-|[]]]; (split; [discriminate|]); (split; [repeat constructor; cbn; intuition discriminate|]).
+    all: repeat constructor; try discriminate.
+  - intros t a [<-|[<-|[]]]; cbn [attr_names map tattrs snd aname In]; intros H;
+      repeat (destruct H as [<-|H]; [split; [reflexivity|discriminate]|]); destruct H.
+Qed.
+
+Example c08_fixed_point_example :
+  exists u, new_url_from c08_schema "/t"
+              [("sort", ["-b,id"]); ("fields[t]", ["b,a"]); ("fields[u]", ["title"]);
+               ("page[size]", ["10"]); ("page[number]", ["x y"]); ("include", ["r"]);
+               ("filter", ["la bel"])] (FOLabel "la bel") = Ok u /\
+            url_string u "la bel"
+            = "/t?fields%5Bt%5D=a%2Cb&fields%5Bu%5D=title&filter=la+bel&page%5Bnumber%5D=x+y&page%5Bsize%5D=10&sort=-b%2Cid%2Ca" /\
+            fo_agrees (p_filter (u_params u)) (FOLabel "la bel").
+Proof. eexists. split; [vm_compute; reflexivity|]. split; [vm_compute; reflexivity|]. right. reflexivity. Qed.
 
 Example c08_escape_examples :
   query_escape "a b&c?#%+/=" = "a+b%26c%3F%23%25%2B%2F%3D" /\
